@@ -429,7 +429,11 @@ async fn run_base(case: Case) {
                     shr.lock().unwrap().receiver_end = Some(format!("error {e}"));
                     return;
                 }
-                Err(_) => {}
+                Err(_) => {
+                    if kit::spinning() {
+                        return;
+                    }
+                }
             }
         }
     });
@@ -644,7 +648,11 @@ async fn run_mpsc(case: Case) {
                     rs.lock().unwrap().1 = Some(format!("error {e}"));
                     return;
                 }
-                Err(_) => {}
+                Err(_) => {
+                    if kit::spinning() {
+                        return;
+                    }
+                }
             }
         }
     });
